@@ -689,6 +689,62 @@ var c17Memo struct {
 	res *c17Res
 }
 
+// removalEqualsDeletion: with gap-site removal on ("do not take into account positions containing gaps"), the
+// matrix is the one of the alignment whose removed columns (a column holding anything but one of the 20
+// residues in some row) are deleted beforehand, computed with removal off, weights travelling with the columns.
+func (k *c17Checker) removalEqualsDeletion(r *c17Res) {
+	cs := k.cs
+	L := len(cs.Seqs[0])
+	var keep []int
+	for j := 0; j < L; j++ {
+		ok := true
+		for _, s := range cs.Seqs {
+			if !strings.ContainsRune("ARNDCQEGHILKMFPSTWYV", rune(s[j])) {
+				ok = false
+			}
+		}
+		if ok {
+			keep = append(keep, j)
+		}
+	}
+	if len(keep) == L || len(keep) == 0 {
+		return
+	}
+	red := make([]string, len(cs.Seqs))
+	for i, s := range cs.Seqs {
+		b := make([]byte, len(keep))
+		for x, j := range keep {
+			b[x] = s[j]
+		}
+		red[i] = string(b)
+	}
+	var w []float64
+	if cs.Weights != nil {
+		for _, j := range keep {
+			w = append(w, cs.Weights[j])
+		}
+	}
+	k2 := &c17Checker{c: k.c, cs: cs}
+	k2.cs.RmGaps, k2.cs.Seqs, k2.cs.Weights = false, red, w
+	img := k2.exec(red, w)
+	if img == nil {
+		return
+	}
+	for i := range r.d {
+		for j := range r.d {
+			x, y := r.d[i][j], img.d[i][j]
+			if math.IsNaN(x) || math.IsNaN(y) {
+				continue
+			}
+			if df := math.Abs(x-y) / math.Max(1, math.Max(math.Abs(x), math.Abs(y))); df > c17Perm {
+				k.viol("gap-site-removal-differs-from-deleting-the-columns", fmt.Sprintf("d(%d,%d) = %.10g with gap-site removal, %.10g on the alignment %v whose removed columns are deleted (removal off)", i, j, x, y, red))
+				return
+			}
+		}
+	}
+	k.c.Outcome(cs.cfgKey() + "|removal-equals-deletion")
+}
+
 func c17BaseKey(cs c17Case) string {
 	cs.RowPerm, cs.ColPerm = nil, nil
 	return jsonStr(cs)
@@ -714,6 +770,9 @@ func c17Check(c *mc.Ctx, cs c17Case) {
 		c17Memo.key, c17Memo.res = key, r
 		if r != nil {
 			k.single(r)
+			if cs.RmGaps && !cs.Prior && !cs.Reuse {
+				k.removalEqualsDeletion(r)
+			}
 		}
 		return
 	}
@@ -1052,7 +1111,7 @@ func init() {
 	mc.Register(&mc.Prop{
 		ID:    "C17",
 		Level: "exploration",
-		Rule: "(also: all 2x3 alignments over {A,R,-} computed by a model object that first served the column-reversed alignment; all 2x3 alignments over {A,R,-} holding a gap, gap-site removal on, weights = every arrangement of (1,2,3); all 2x2 alignments over {A,R,W} computed after another model object of the same matrix, with the other and then the same frequency setting, served on skewed data;) bounded-exhaustive enumeration of protein.NewProtDistModel + InitModel + MLDist on a lattice. Configurations: all 7 empirical models (LG, JTT, WAG, Dayhoff, MtREV, HIVb, AB) x {model, empirical} frequencies x gamma {off, alpha 0.5, 1, 2} x gap-site removal {off, on}. " +
+		Rule: "(on every case with gap-site removal on and a removable column: the matrix equals the one of the alignment with those columns deleted, removal off; also: all 2x3 alignments over {A,R,-} computed by a model object that first served the column-reversed alignment; all 2x3 alignments over {A,R,-} holding a gap, gap-site removal on, weights = every arrangement of (1,2,3); all 2x2 alignments over {A,R,W} computed after another model object of the same matrix, with the other and then the same frequency setting, served on skewed data;) bounded-exhaustive enumeration of protein.NewProtDistModel + InitModel + MLDist on a lattice. Configurations: all 7 empirical models (LG, JTT, WAG, Dayhoff, MtREV, HIVb, AB) x {model, empirical} frequencies x gamma {off, alpha 0.5, 1, 2} x gap-site removal {off, on}. " +
 			"Inputs, quick tier: every alignment of " + c17BoundText("quick") + ". Thorough tier: " + c17BoundText("thorough") + ". " +
 			"Every input is executed once (a fresh model per execution) and its matrix is compared with the matrix of its smallest row/column rearrangement, so that every row order and every column order (weights travelling with their columns) of every alignment is covered; symmetries of an alignment (equal rows, equal columns) are checked on its own matrix. " +
 			"Clauses per matrix: square of the right size, no NaN, |d_ii| <= 1e-6, |d_ij - d_ji| <= 1e-6, 0 <= d_ij <= 20 (exact), d_ij <= 1e-6 when no column holds two different unambiguous residues, " +
